@@ -547,6 +547,17 @@ def main(argv):
         hits = forbidden_tokens(conf["lean_modules"] + ["Oracle.Main" + prop])
         if hits:
             violation(None, "forbidden tokens in Lean sources: %s" % hits[:5], {"hits": hits}, False)
+        if tier == "thorough":
+            # independent re-check of the compiled modules of this property (and everything they import)
+            # by the toolchain's stand-alone kernel checker
+            try:
+                rc_lc, out_lc = sh(["lake", "env", "leanchecker"] + conf["lean_modules"], cwd=LEAN, timeout=3600)
+            except Exception as e:
+                rc_lc, out_lc = 1, str(e)
+            notes.append("leanchecker %s: exit %s" % (" ".join(conf["lean_modules"]), rc_lc))
+            if rc_lc != 0:
+                log(out_lc[-2000:])
+                violation(None, "leanchecker rejected the compiled modules of " + ",".join(conf["lean_modules"]), {"log": out_lc[-2000:]}, False)
     # ---- 3. correspondence
     cov = {"evaluations": 0, "ops": 0, "distinct": 0, "distinct_nontrivial": 0, "samples": [], "suites": {},
            "disagreements_checked": 0}
